@@ -161,11 +161,46 @@ def destination_name_is_never_opened(ctx):
     ctx.ob(f, '_download_file(bucket, key, temp_filename, ...)', len(cs) == 1 and len(cs[0].args) >= 3 and tn and norm(cs[0].args[2]) == tn[0], 'legacy downloads must write to the temp name')
 
 
-@rule('C06.b', ['C06'], floor=5)
+def _compat_rename_is_atomic(ctx):
+    """compat.rename_file is os.rename (an atomic replace on POSIX) except on Windows, where - and only where - the destination may
+    be removed first.  Judged on the module's top level: every binding of the name that does more than rename (removes or unlinks
+    the destination) must sit under a test of sys.platform / os.name for Windows."""
+    m = ctx.p.modules['compat']
+    n = 0
+
+    def visit(stmts, win_guarded):
+        nonlocal n
+        for st in stmts:
+            if isinstance(st, ast.If):
+                test, negated = st.test, False
+                while isinstance(test, ast.UnaryOp) and isinstance(test.op, ast.Not):
+                    test, negated = test.operand, not negated
+                if isinstance(test, ast.Compare) and len(test.ops) == 1 and isinstance(test.ops[0], (ast.NotEq, ast.NotIn, ast.IsNot)):
+                    negated = not negated
+                t = norm(test)
+                is_win = ('sys.platform' in t and 'win' in t) or ('os.name' in t and 'nt' in t)
+                visit(st.body, win_guarded or (is_win and not negated))
+                visit(st.orelse, win_guarded or (is_win and negated))
+            elif isinstance(st, ast.FunctionDef) and st.name == 'rename_file':
+                n += 1
+                removes = [c for c in ast.walk(st) if isinstance(c, ast.Call) and (dotted(c.func) or '') in ('os.remove', 'os.unlink', 'remove', 'unlink')]
+                ren = [c for c in ast.walk(st) if isinstance(c, ast.Call) and (dotted(c.func) or '') in ('os.rename', 'os.replace')]
+                ctx.ob('compat.<module>', f"def rename_file{' (Windows only)' if win_guarded else ''}: {'remove + ' if removes else ''}rename", bool(ren) and (win_guarded or not removes),
+                       'outside Windows the destination is removed before the rename: between the two calls (or if the rename fails) the destination does not exist and its '
+                       'previous content is gone although the download did not succeed', node=st)
+            elif isinstance(st, ast.Assign) and any(isinstance(t_, ast.Name) and t_.id == 'rename_file' for t_ in st.targets):
+                n += 1
+                ctx.ob('compat.<module>', f'rename_file = {norm(st.value)}', norm(st.value) in ('os.rename', 'os.replace'), 'the publish step must be one atomic rename', node=st)
+    visit(m.tree.body, False)
+    ctx.need(n >= 1, 'compat.rename_file vanished')
+
+
+@rule('C06.b', ['C06', 'C19', 'C20'], floor=5)
 def rename_is_final_and_last(ctx):
     """rename_file(temp, final) call sites are exactly the four finalisers; the manager's
     renaming task closes the file first, is built only by get_final_io_task with
     is_final=True, and runs on the IO executor behind every write."""
+    _compat_rename_is_atomic(ctx)
     allowed = {'download.IORenameFileTask._main', '__init__.S3Transfer.download_file', 'processpool.GetObjectWorker._do_file_rename',
                'processpool.GetObjectWorker._finalize_download',  # the finaliser itself, when its rename helper is written in place (C06.d judges its shape)
                'crt.RenameTempFileHandler.__call__', 'utils.OSUtils.rename_file', '__init__.OSUtils.rename_file'}
@@ -249,13 +284,28 @@ def cleanup_registered_with_the_temp_handle(ctx):
     ctx.ob(f.qualname, 'returns self._temp_fileobj = the opened temp handle', rets == ['self._temp_fileobj'] and kept, f'returns {rets}', node=f.node)
 
 
-@rule('C06.d', ['C06', 'C19', 'C20', 'C02', 'C03'], floor=8)
+@rule('C06.d', ['C06', 'C19', 'C20', 'C02', 'C03', 'C04'], floor={'*': 8, 'C04': 1})
 def both_outcomes_handled(ctx):
     """Sibling agreement of the non-manager finalisers: legacy download_file - handler
     removes the temp file and re-raises, else renames; process pool _finalize_download -
     exception => remove, otherwise rename, rename failure => record + remove, notify_done
     after all three; CRT RenameTempFileHandler - error => remove, otherwise rename,
     rename failure => remove + set_exception."""
+    # legacy ranged download: the IO thread is told to stop only after the part fetchers were joined.  The sentinel is queued on
+    # every exit (finally), and not from inside the `with executor` block: queued earlier, the writer stops reading while fetchers
+    # are still producing, a fetcher blocks for ever in put() on the full queue and the join - and download_file - never return
+    lf = ctx.func('__init__.MultipartDownloader._download_file_as_future')
+    puts = [c for c in own_calls(lf.node) if isinstance(c.func, ast.Attribute) and c.func.attr == 'put' and c.args and norm(c.args[0]) == 'SHUTDOWN_SENTINEL']
+    ctx.need(puts, 'legacy _download_file_as_future no longer queues the shutdown sentinel')
+    for c in puts:
+        from ..ir import ancestors
+        withs = [a for a in ancestors(c) if isinstance(a, ast.With) and any('executor' in norm(it.context_expr).lower() for it in a.items)]
+        fin = any(field == 'finalbody' for _, field in q.enclosing_trys(c))
+        ctx.ob(lf, 'SHUTDOWN_SENTINEL is queued in finally, after the executor block was left (fetchers joined)', fin and not withs,
+               'the writer must outlive the fetchers: a sentinel queued while parts are still being fetched (first failure inside the with block) leaves a fetcher '
+               'blocked on the full IO queue and the download never returns')
+    if ctx.prop == 'C04':
+        return
     f = ctx.func('__init__.S3Transfer.download_file')
     trys = [t for t in own_nodes(f.node) if isinstance(t, ast.Try) and any((dotted(c.func) or '').endswith('_download_file') for s in t.body for c in ast.walk(s) if isinstance(c, ast.Call))]
     ctx.need(trys, 'legacy download_file: no try around _download_file')
@@ -350,3 +400,14 @@ def both_outcomes_handled(ctx):
     hs = [h for h in own_nodes(f.node) if isinstance(h, ast.ExceptHandler)]
     ok = bool(hs) and any((dotted(c.func) or '').endswith('remove_file') for c in ast.walk(hs[0]) if isinstance(c, ast.Call)) and isinstance(hs[0].body[-1], ast.Raise)
     ctx.ob(f, 'allocate: OSError => remove_file(filename); raise', ok, 'a failed pre-allocation must not leave an empty temp file')
+    # ... and reserves exactly the object's size (the pre-allocated length is the length of the published file when fewer bytes
+    # are written: a size rounded up publishes padding as object content)
+    fa = ctx.func('compat.fallocate')
+    szp = fa.params[1] if len(fa.params) > 1 else 'size'
+    sized = [c for c in own_calls(fa.node) if isinstance(c.func, ast.Attribute) and c.func.attr in ('posix_fallocate', 'truncate', 'ftruncate')]
+    ctx.need(sized, 'compat.fallocate no longer sizes the file')
+    for c in sized:
+        a_ = c.args[-1] if c.args else None
+        ctx.ob(fa, f'{norm(c.func)}(..., {szp})', a_ is not None and norm(a_) == szp, f'the length reserved must be the size asked for, found {norm(a_)}')
+    al = [c for c in own_calls(f.node) if (dotted(c.func) or '').endswith('fallocate')]
+    ctx.ob(f, 'allocate: fallocate(f, size)', len(al) == 1 and len(al[0].args) == 2 and norm(al[0].args[1]) == (f.params[2] if len(f.params) > 2 else 'size'), 'the size handed on must be the size asked for')
